@@ -231,6 +231,14 @@ def bus_isolation(chk, rng, thorough):
     vconn.addMatch(lambda m: got.append(m.body[0]), mtype='signal', interface='org.ex.Probe', member='Probe')
     net.run()
     vname = vconn.busName
+    from txdbus import objects as _o, interface as _i
+
+    class Served(_o.DBusObject):
+        dbusInterfaces = [_i.DBusInterface('org.ex.H', _i.Method('Hostile'), noRegister=True)]
+
+        def dbus_Hostile(self):
+            return None
+    vconn.exportObject(Served('/h'))         # the victim serves the object the hostile messages name
 
     def probe(i):
         cconn.sendMessage(_m.SignalMessage('/probe', 'Probe', 'org.ex.Probe', destination=vname, signature='u', body=[i]))
@@ -253,6 +261,26 @@ def bus_isolation(chk, rng, thorough):
                 body = body[:4][::-1] + body[4:]
             inputs.append(('honest frame, body %r under %s' % (body[:12], sg), refwire.msg(1, 89, hfl, sg, None, le=le, body_raw=body)))
             inputs.append(('honest frame (signal), body %r under %s' % (body[:12], sg), refwire.msg(4, 89, hfl, sg, None, le=le, body_raw=body)))
+    # well-framed messages for the victim whose known HEADER FIELDS hold values of another type than the specification
+    # prescribes (a member that is an array, a path that is a number ...): invalid messages, their sender's problem
+    def odd_header(mtype, fields):
+        hdr = refwire.enc('yyyyuua(yv)', [ord('l'), mtype, 0, 1, 0, 88, fields], 0, True)
+        return hdr + b'\0' * ((8 - len(hdr) % 8) % 8)
+    V = refwire.Variant
+    good = {1: V('o', '/h'), 2: V('s', 'org.ex.H'), 3: V('s', 'Hostile'), 6: V('s', vname)}
+    for code, odd in ((3, V('as', ['Hostile'])), (3, V('u', 7)), (2, V('as', ['org.ex.H'])), (2, V('b', True)), (1, V('ay', [47, 104])),
+                      (1, V('(s)', ['/h'])), (8, V('as', ['s'])), (7, V('u', 1)), (9, V('s', 'two'))):
+        fl = dict(good)
+        fl[code] = odd
+        for mtype in (1, 4):
+            inputs.append(('header field %d holding a %s (message type %d)' % (code, odd.sig if hasattr(odd, 'sig') else '?', mtype),
+                           odd_header(mtype, sorted(fl.items()))))
+    for code, odd in ((5, V('s', 'seven')), (5, V('as', ['7'])), (4, V('as', ['org.ex.Err'])), (4, V('u', 3))):
+        fl = {5: V('u', 7), 4: V('s', 'org.ex.Err'), 6: V('s', vname)}
+        fl[code] = odd
+        for mtype in (2, 3):
+            inputs.append(('header field %d holding a %s (message type %d)' % (code, odd.sig if hasattr(odd, 'sig') else '?', mtype),
+                           odd_header(mtype, sorted(fl.items()))))
     inputs += rng.sample(muts, min(len(muts), 400 if thorough else 80))
     assert probe(0), 'probe does not arrive on the undisturbed bus'
     recs, names = [], []
